@@ -317,6 +317,9 @@ fn check_history(report: &Report, rt: &Arc<tokio::runtime::Runtime>, hist: &[H])
 
 pub fn run(opts: Opts) -> i32 {
     let report = Report::new("C09", "exploration", opts.clone());
+    if let Some(path) = &opts.replay {
+        report.replay_by_re_enumeration(path);
+    }
     report.set_rule(
         "every history of <=4 (quick) / <=5 (thorough) ops from {message, answered run, side effects, cursor, manual checkpoint at last message / \
          first message / by stride 2, auto(1,1), auto(2,2), schedule(stride 1|2, max_new 1, block/execute/dry variants), inflight job (spawn \
